@@ -49,13 +49,16 @@ func runC20(c *Ctx) {
 	c20R3(c)
 	c20R4(c)
 	c20R5(c)
+	c20R6(c, tagL)
 }
 
 // ---------- R1 ----------
 
 // distribution-spec v1.1 "Pulling manifests":
-//   <name>      must match  [a-z0-9]+((\.|_|__|-+)[a-z0-9]+)*(\/[a-z0-9]+((\.|_|__|-+)[a-z0-9]+)*)*
-//   <reference> as a tag must match  [a-zA-Z0-9_][a-zA-Z0-9._-]{0,127}
+//
+//	<name>      must match  [a-z0-9]+((\.|_|__|-+)[a-z0-9]+)*(\/[a-z0-9]+((\.|_|__|-+)[a-z0-9]+)*)*
+//	<reference> as a tag must match  [a-zA-Z0-9_][a-zA-Z0-9._-]{0,127}
+//
 // written here independently of the repository's text (alternation order and
 // quantifier forms differ on purpose).
 const (
@@ -515,7 +518,7 @@ func c20FirstSep(agg *c19Agg, p *sxPath, F *ssa.Function, fname string, R, ref s
 
 func c20R3(c *Ctx) {
 	const R3 = "C20.R3.parse-validates"
-	c.Expect(R3, 16)
+	c.Expect(R3, 17)
 	agg := newC19Agg(c, R3)
 	refT := c.P.Named("registry", "Reference")
 	PR := c.P.Fn("registry", "ParseReference")
@@ -547,6 +550,16 @@ func c20R3(c *Ctx) {
 				agg.ok(key, PR, p.RetInstr, "every successful return is preceded by a nil "+v+"() of the value returned")
 			} else {
 				agg.fail(key, PR, p.RetInstr, p, "a reference is returned without a successful "+v+"() of exactly that value")
+			}
+		}
+		// registry / path are separated at the FIRST '/': a last-occurrence search would move
+		// repository segments into the registry part and reject multi-segment repositories
+		{
+			key := pn + "|registry-delimited-by-first-/"
+			if last := c20LastSplit(R, `const:"/"`, "const:47"); last == nil {
+				agg.ok(key, PR, p.RetInstr, "registry and path are separated by a first-occurrence search for '/'")
+			} else {
+				agg.fail(key, PR, p.RetInstr, p, "registry and path are separated with "+last.Name+" (last occurrence / unbounded split): \"reg/a/b\" no longer parses as registry reg, repository a/b")
 			}
 		}
 		ref := fld(R, "Reference")
@@ -1273,6 +1286,164 @@ func c20ReferrersQuery(f *ssa.Function) (bool, string) {
 
 var _ = syntax.Perl
 
+// ---------- R6 ----------
+//
+// The other ways a registry / repository name or a default reference enters a
+// Reference (and from there a URL): NewRegistry(name), Registry.Repository(name),
+// NewRepository(reference), Reference.Host(), Reference.ReferenceOrDefault().
+
+func c20R6(c *Ctx, tagL *reLang) {
+	const R6 = "C20.R6.components-validated-at-construction"
+	c.Expect(R6, 5)
+	refT := c.P.Named("registry", "Reference")
+	if refT == nil {
+		c.LostAnchor(R6, "registry.Reference")
+		return
+	}
+	fld := func(v sxVal, name string) sxVal { x, _ := sxFieldByName(v, refT, name); return x }
+	// constructors: the name given is validated, and the validated Reference is what the object keeps
+	for _, k := range []struct{ pkg, fn, field, validator string }{
+		{"registry/remote", "NewRegistry", "Registry", "ValidateRegistry"},
+		{"registry/remote", "Registry.Repository", "Repository", "ValidateRepository"},
+	} {
+		F := c.P.Fn(k.pkg, k.fn)
+		if F == nil {
+			c.LostAnchor(R6, k.pkg+"."+k.fn)
+			continue
+		}
+		idx := c19ParamIndexByType(F, isStringType)
+		if idx < 0 {
+			c.LostAnchor(R6, k.fn+": the name parameter")
+			continue
+		}
+		raw := sxParam{F.Params[idx]}
+		res := c20Paths(F)
+		ok, why, n := res.Err == "", res.Err, 0
+		for _, p := range res.Paths {
+			if p.Ret == nil || !sxSame(p.Ret[len(p.Ret)-1], sxNil) {
+				continue
+			}
+			n++
+			var valid sxVal
+			for _, r := range p.Calls {
+				if r.Name == "(~/registry.Reference)."+k.validator && p.ErrNil(-1, r) {
+					if recv := c20Recv(r); recv != nil && sxSame(fld(recv, k.field), raw) {
+						valid = recv
+					}
+				}
+				if r.Name == "(~/registry.Reference).Validate" && p.ErrNil(-1, r) {
+					if recv := c20Recv(r); recv != nil && sxSame(fld(recv, k.field), raw) {
+						valid = recv
+					}
+				}
+			}
+			if valid == nil {
+				ok, why = false, "an object is returned although "+k.validator+"() did not succeed on a Reference whose "+k.field+" is the given name"+c19PathNote(p)
+				continue
+			}
+			kept := false
+			for _, cell := range p.Mem {
+				sxWalk(cell, func(x sxVal) bool {
+					if sxSame(x, valid) {
+						kept = true
+					}
+					return !kept
+				})
+			}
+			if !kept {
+				ok, why = false, "the Reference that was validated is not the one the returned object keeps"+c19PathNote(p)
+			}
+		}
+		if n == 0 {
+			ok, why = false, "no successful return found"
+		}
+		c.Check(R6, FnName(F)+"|name-validated", F.Pos(), ok, ifelse(ok, "every successful return validated the given "+strings.ToLower(k.field)+" name with "+k.validator+"() and keeps exactly that Reference", why))
+	}
+	// NewRepository keeps the parsed reference
+	if F := c.P.Fn("registry/remote", "NewRepository"); F == nil {
+		c.LostAnchor(R6, "remote.NewRepository")
+	} else {
+		PR := c.P.Fn("registry", "ParseReference")
+		res := c20Paths(F)
+		ok, why, n := res.Err == "", res.Err, 0
+		for _, p := range res.Paths {
+			if p.Ret == nil || !sxSame(p.Ret[len(p.Ret)-1], sxNil) {
+				continue
+			}
+			n++
+			kept := false
+			for _, r := range p.Calls {
+				if r.Callee == PR && p.ErrNil(-1, r) && sxSame(r.Args[0], sxParam{F.Params[0]}) {
+					for _, cell := range p.Mem {
+						sxWalk(cell, func(x sxVal) bool {
+							if sxSame(x, r.Result(0)) {
+								kept = true
+							}
+							return !kept
+						})
+					}
+				}
+			}
+			if !kept {
+				ok, why = false, "a Repository is returned whose Reference is not the successfully parsed one"+c19PathNote(p)
+			}
+		}
+		c.Check(R6, FnName(F)+"|keeps-parsed-reference", F.Pos(), ok && n > 0, ifelse(ok && n > 0, "the Repository keeps registry.ParseReference(reference) (nil error), unchanged", why))
+	}
+	// Host(): the registry itself or a constant that is a bare authority
+	authority := reMust(`\A[A-Za-z0-9](?:[A-Za-z0-9.\-]*[A-Za-z0-9])?(?::[0-9]+)?\z`)
+	if H := c.P.Fn("registry", "Reference.Host"); H == nil {
+		c.LostAnchor(R6, "registry.Reference.Host")
+	} else {
+		recv := sxParam{H.Params[0]}
+		res := c20Paths(H)
+		ok, why := res.Err == "" && len(res.Paths) > 0, res.Err
+		for _, p := range res.Paths {
+			if p.Ret == nil {
+				continue
+			}
+			v := p.Ret[0]
+			if sxSame(v, fld(recv, "Registry")) {
+				continue
+			}
+			if k, isConst := v.(sxConst); isConst {
+				if str, isStr := constString(k.c); isStr && reMatch(authority, str) {
+					continue
+				}
+			}
+			ok, why = false, "Host() can return "+sxDescribe(v)+", which is neither the registry itself nor a constant bare authority (the URL would get another host, a path or a query)"
+		}
+		c.Check(R6, FnName(H)+"|authority-only", H.Pos(), ok, ifelse(ok, "Host() returns the registry or a constant host[:port]", why))
+	}
+	// ReferenceOrDefault(): the reference or a constant that is a valid tag
+	if D := c.P.Fn("registry", "Reference.ReferenceOrDefault"); D == nil {
+		c.LostAnchor(R6, "registry.Reference.ReferenceOrDefault")
+	} else if tagL != nil {
+		recv := sxParam{D.Params[0]}
+		res := c20Paths(D)
+		ok, why := res.Err == "" && len(res.Paths) > 0, res.Err
+		for _, p := range res.Paths {
+			if p.Ret == nil {
+				continue
+			}
+			v := p.Ret[0]
+			if sxSame(v, fld(recv, "Reference")) {
+				if p.IsEmptyString(-1, v) {
+					ok, why = false, "ReferenceOrDefault() returns the empty reference"
+				}
+				continue
+			}
+			if k, isConst := v.(sxConst); isConst {
+				if str, isStr := constString(k.c); isStr && reMatch(tagL, str) {
+					continue
+				}
+			}
+			ok, why = false, "ReferenceOrDefault() can return "+sxDescribe(v)+", which is neither the reference nor a constant the tag grammar accepts"
+		}
+		c.Check(R6, FnName(D)+"|default-is-a-tag", D.Pos(), ok, ifelse(ok, "ReferenceOrDefault() returns the non-empty reference or a constant that is a valid tag", why))
+	}
+}
+
 // ---------- R5 ----------
 //
 // A raw reference string handed to the remote API (Resolve, FetchReference,
@@ -1669,5 +1840,19 @@ var c20Mutants = []Mutant{
 		New: "\tif rest, ok := strings.CutPrefix(reference, r.Reference.Registry+\"/\"+r.Reference.Repository); ok && len(rest) > 1 {\n\t\tif rest[0] == ':' || rest[0] == '@' {\n\t\t\treference = rest[1:]\n\t\t}\n\t}\n\tref, err := registry.ParseReference(reference)\n\tif err != nil {\n\t\tref = registry.Reference{", Expect: "C20.R3"},
 	{Name: "string-trims-the-registry", File: "registry/reference.go",
 		Old: "\tref := r.Registry + \"/\" + r.Repository\n", New: "\tref := strings.TrimSuffix(r.Registry, \"/\") + \"/\" + r.Repository\n", Expect: "C20.R3"},
+	{Name: "registry-split-at-last-slash", File: "registry/reference.go",
+		Old: "\tparts := strings.SplitN(artifact, \"/\", 2)\n\tif len(parts) == 1 {", New: "\tparts := []string{artifact}\n\tif i := strings.LastIndex(artifact, \"/\"); i >= 0 {\n\t\tparts = []string{artifact[:i], artifact[i+1:]}\n\t}\n\tif len(parts) == 1 {", Expect: "C20.R3"},
+	{Name: "repository-name-not-validated", File: "registry/remote/repository.go",
+		Old: "\tif err := ref.ValidateRepository(); err != nil {\n\t\treturn nil, err\n\t}\n\trepo := (*Repository)(opts).clone()", New: "\trepo := (*Repository)(opts).clone()", Expect: "C20.R6"},
+	{Name: "registry-name-validates-a-constant", File: "registry/remote/registry.go",
+		Old: "\tref := registry.Reference{\n\t\tRegistry: name,\n\t}\n\tif err := ref.ValidateRegistry(); err != nil {\n\t\treturn nil, err\n\t}", New: "\tref := registry.Reference{\n\t\tRegistry: name,\n\t}\n\tif err := (registry.Reference{Registry: \"localhost\"}).ValidateRegistry(); err != nil {\n\t\treturn nil, err\n\t}", Expect: "C20.R6"},
+	{Name: "docker-alias-host-with-path", File: "registry/reference.go",
+		Old: "\tif r.Registry == \"docker.io\" {\n\t\treturn \"registry-1.docker.io\"\n\t}", New: "\tif r.Registry == \"docker.io\" {\n\t\treturn \"registry-1.docker.io\"\n\t}\n\tif r.Registry == \"index.docker.io\" {\n\t\treturn \"registry-1.docker.io/v2\"\n\t}", Expect: "C20.R6"},
+	{Name: "registry-name-validated-only-with-port", File: "registry/remote/registry.go",
+		Old: "\tif err := ref.ValidateRegistry(); err != nil {\n\t\treturn nil, err\n\t}\n\treturn &Registry{", New: "\tif len(name) > 253 {\n\t\tif err := ref.ValidateRegistry(); err != nil {\n\t\t\treturn nil, err\n\t\t}\n\t}\n\treturn &Registry{", Expect: "C20.R6"},
+	{Name: "docker-host-with-path", File: "registry/reference.go",
+		Old: "\t\treturn \"registry-1.docker.io\"", New: "\t\treturn \"registry-1.docker.io/\"", Expect: "C20.R6"},
+	{Name: "default-reference-not-a-tag", File: "registry/reference.go",
+		Old: "\t\treturn \"latest\"", New: "\t\treturn \":latest\"", Expect: "C20.R6"},
 	{Name: "reference-placed-in-query", File: "registry/remote/url.go", Old: "\t\t\"%s/referrers/%s%s\",", New: "\t\t\"%s/referrers/?digest=%s%s\",", Expect: "C20.R4"},
 }
